@@ -5,6 +5,7 @@
    R - | before | after                                          observed Return: extracted return_ok
    C <fid> <pc> <np> | before | after                            observed entry into a compiled function: extracted enter_ok
    D/N/O ...                                                     direct observations: prints the specification value
+   H <id> | item | item ...                                      history of texts: extracted exec_fate folded from i_new (Model/Resident.v)
    output: ID <TAB> MODEL <TAB> SPEC *)
 open Model
 open Zutil
@@ -139,6 +140,74 @@ let coq_dump name (f : fn) (a : astate list list) =
       (String.concat ";\n   " (List.map (fun l -> "[" ^ String.concat "; " (List.map coq_astate l) ^ "]") a))
   end
 
+(* ---- H lines: histories of texts against the resident-state model (Model/Resident.v) ----
+   H <id> | P:live,lex,queued,recur,exprs | C:n:tree | E:n:tree | K:n:tree ...
+   tree ::= L0 | L1 | N(tree ...) | F<label>(tree ...) | J<label>      (label -1 = none) *)
+let parse_tree (s : string) : ctree =
+  let n = String.length s in
+  let pos = ref 0 in
+  let peek () = if !pos < n then s.[!pos] else ')' in
+  let skip_sp () = while !pos < n && s.[!pos] = ' ' do incr pos done in
+  let read_int () =
+    let st = !pos in
+    if !pos < n && s.[!pos] = '-' then incr pos;
+    while !pos < n && s.[!pos] >= '0' && s.[!pos] <= '9' do incr pos done;
+    int_of_string (String.sub s st (!pos - st)) in
+  let lbl k = if k < 0 then None else Some (z_of_int k) in
+  let rec tree () : ctree =
+    skip_sp ();
+    let c = peek () in
+    incr pos;
+    match c with
+    | 'L' -> let k = read_int () in TLeaf (k <> 0)
+    | 'J' -> let k = read_int () in TJump (lbl k)
+    | 'N' -> TNode (subs ())
+    | 'F' -> let k = read_int () in TFor (lbl k, subs ())
+    | _ -> failwith ("bad tree " ^ s)
+  and subs () : ctree list =
+    skip_sp ();
+    if peek () <> '(' then failwith ("bad tree, ( expected " ^ s);
+    incr pos;
+    let acc = ref [] in
+    skip_sp ();
+    while peek () <> ')' do acc := tree () :: !acc; skip_sp () done;
+    incr pos;
+    List.rev !acc in
+  tree ()
+
+let fclass_of (item : string) : fclass =
+  match String.split_on_char ':' item with
+  | ["P"; res] ->
+    (match List.map int_of_string (String.split_on_char ',' res) with
+     | [live; lex; q; rc; ex] -> KParse { p_live = (live <> 0); p_lex = n_of lex; p_queued = n_of q; p_recur = n_of rc; p_exprs = n_of ex }
+     | _ -> failwith ("bad residue " ^ item))
+  | ["C"; k; t] -> KCompile (n_of (int_of_string k), parse_tree t)
+  | ["E"; k; t] -> KRunErr (n_of (int_of_string k), parse_tree t, [])
+  | ["K"; k; t] -> KOk (n_of (int_of_string k), parse_tree t)
+  | _ -> failwith ("bad history item " ^ item)
+
+let show_obs (s : istate) : string =
+  let (((((d, sc), ad), lp), pend), ((((live, lex), q), rc), ex)) = obs_of s in
+  Printf.sprintf "%d,%d,%d,%d;%d;%d,%d,%d,%d,%d" (i_of d) (i_of sc) (i_of ad) (i_of lp) (i_of pend)
+    (if live then 1 else 0) (i_of lex) (i_of q) (i_of rc) (i_of ex)
+
+let run_history (items : string list) : string * string =
+  let st = ref (Some i_new) in
+  let outs = ref [] and specs = ref [] in
+  List.iter (fun item ->
+    let k = fclass_of item in
+    (match !st with
+     | None -> outs := "-" :: !outs
+     | Some s ->
+       (match exec_fate k s with
+        | None -> st := None; outs := "impossible" :: !outs
+        | Some s' -> st := Some s'; outs := show_obs s' :: !outs));
+    (* the specification: quiet after every evaluation, every resident structure at rest after a value *)
+    let (((r_d, r_s), r_a), r_l) = rest_depths in
+    let q = Printf.sprintf "%d,%d,%d,%d;0" (i_of r_d) (i_of r_s) (i_of r_a) (i_of r_l) in
+    specs := (match k with KOk _ -> q ^ ";idle" | _ -> q) :: !specs) items;
+  (String.concat " / " (List.rev !outs), String.concat " / " (List.rev !specs))
+
 let has_goto (f : fn) = List.exists (function IGoto _ -> true | _ -> false) f.code
 
 let () =
@@ -189,6 +258,9 @@ let () =
             let s = cstate_of (List.nth parts 1) and s' = cstate_of (List.nth parts 2) in
             let i = (try List.nth f.code (int_of_string p) with _ -> IUnknown) in
             Printf.printf "%s\t%s\t-\n" id (if enter_ok i (n_of (int_of_string np)) s s' then "ok" else "bad"))
+       | "H" :: _ ->
+         let (m, sp) = run_history (List.filter (fun x -> x <> "") (List.tl parts)) in
+         Printf.printf "%s\t%s\t%s\n" id m sp
        | "D" :: _ -> Printf.printf "%s\t-\t%s\n" id rest
        | "N" :: _ -> Printf.printf "%s\t-\tnil\n" id
        | "O" :: _ -> Printf.printf "%s\t-\tsame\n" id
